@@ -50,6 +50,15 @@ func (d *typeDictionary) add(n Node, name string, td *Typedef) {
 	d.dict[n][name] = td
 }
 
+// merge adds all the typedefs of o to d.
+func (d *typeDictionary) merge(o *typeDictionary) {
+	defer d.mu.Unlock()
+	d.mu.Lock()
+	for n, tds := range o.dict {
+		d.dict[n] = tds
+	}
+}
+
 // find returns the Typedef name define in node n, or nil.
 func (d *typeDictionary) find(n Node, name string) *Typedef {
 	defer d.mu.Unlock()
